@@ -8,8 +8,11 @@ import (
 	"errors"
 	"fmt"
 	"io"
+	"os"
+	"path/filepath"
 	"reflect"
 	"sort"
+	"sync/atomic"
 
 	"golang.org/x/text/language"
 	"pgregory.net/rapid"
@@ -34,6 +37,7 @@ type Program struct {
 	Version       int         `json:"version"` // index into Versions
 	HumanReadable bool        `json:"human_readable"`
 	Seekable      bool        `json:"seekable"`
+	ViaCreate     bool        `json:"via_create,omitempty"` // write through pdf.Create to a named file which already holds a longer, older file
 	UserPW        string      `json:"user_pw,omitempty"`
 	OwnerPW       string      `json:"owner_pw,omitempty"`
 	Perm          uint32      `json:"perm,omitempty"`
@@ -305,7 +309,26 @@ func (p *Program) Run(sink io.Writer) *Result {
 		res.fill(sink)
 		return res
 	}
-	w, err := pdf.NewWriter(sink, v, opt)
+	optBefore := *opt
+	defer func() {
+		if res.Mutated == nil && (opt.UserPassword != optBefore.UserPassword || opt.OwnerPassword != optBefore.OwnerPassword ||
+			opt.UserPermissions != optBefore.UserPermissions || opt.HumanReadable != optBefore.HumanReadable ||
+			opt.DocumentMetadata != optBefore.DocumentMetadata) {
+			res.Mutated = fmt.Errorf("the Writer modified the caller's WriterOptions: user %q -> %q, owner %q -> %q",
+				optBefore.UserPassword, opt.UserPassword, optBefore.OwnerPassword, opt.OwnerPassword)
+		}
+	}()
+	var w *pdf.Writer
+	var err error
+	if fs, isFile := sink.(*FileSink); isFile {
+		// the path already holds an older, longer file
+		if err := os.WriteFile(fs.Path, staleFile(fs.Prefill), 0o666); err != nil {
+			panic("wprog: cannot prepare " + fs.Path + ": " + err.Error())
+		}
+		w, err = pdf.Create(fs.Path, v, opt)
+	} else {
+		w, err = pdf.NewWriter(sink, v, opt)
+	}
 	if err != nil {
 		return fail("NewWriter", err)
 	}
@@ -404,6 +427,25 @@ func (p *Program) Run(sink io.Writer) *Result {
 				ref = res.Entries[(a.Src-1)%len(res.Entries)].Ref
 			}
 			val := a.Obj.PDF()
+			if a.Src < 0 {
+				// WriteCompressed with a non-zero generation under a number
+				// above everything allocated so far: members of object
+				// streams have generation 0, so this has to be refused too
+				free := w.Alloc()
+				pending = append(pending, free)
+				g := a.Gen
+				if g == 0 {
+					g = 1
+				}
+				ref = pdf.NewReference(free.Number()+uint32(-a.Src), g)
+				if err := w.WriteCompressed([]pdf.Reference{ref}, val); err == nil {
+					res.BadAccepted++
+					res.Entries = append(res.Entries, &Entry{Ref: ref, Obj: *a.Obj, InObjStm: true})
+				} else {
+					res.BadRefused++
+				}
+				break
+			}
 			if err := w.Put(ref, val); err == nil {
 				res.BadAccepted++
 				res.Entries = append(res.Entries, &Entry{Ref: ref, Obj: *a.Obj, Deferred: inStream})
@@ -627,13 +669,53 @@ func (r *Result) fill(sink io.Writer) {
 	case *MemStream:
 		r.Data = s.inner.Buf
 		r.Writes = s.inner.Writes
+	case *FileSink:
+		data, err := os.ReadFile(s.Path)
+		if err != nil {
+			panic("wprog: cannot read back " + s.Path + ": " + err.Error())
+		}
+		r.Data = data
+		os.Remove(s.Path)
 	case interface{ Bytes() []byte }:
 		r.Data = s.Bytes()
 	}
 }
 
+// FileSink stands for a named file written through pdf.Create.  Before the
+// Writer is created the file is filled with Prefill bytes which end like a
+// PDF file, as if an older, longer document were being replaced.
+type FileSink struct {
+	Path    string
+	Prefill int
+}
+
+// Write is never called: Run hands the path to pdf.Create.
+func (*FileSink) Write(p []byte) (int, error) {
+	panic("wprog: FileSink is written through pdf.Create")
+}
+
+var fileSinkSeq atomic.Int64
+
+func newFileSink() *FileSink {
+	dir := os.Getenv("VERIF_WORK")
+	if dir == "" {
+		dir = os.TempDir()
+	}
+	return &FileSink{Path: filepath.Join(dir, fmt.Sprintf("wprog-%d-%d.pdf", os.Getpid(), fileSinkSeq.Add(1))), Prefill: 300000}
+}
+
+func staleFile(n int) []byte {
+	tail := []byte("\n7 0 obj\n<</Stale true>>\nendobj\nxref\n0 1\n0000000000 65535 f\r\ntrailer\n<</Size 1>>\nstartxref\n12345\n%%EOF\n")
+	b := bytes.Repeat([]byte("% an older, longer file\n"), n/24+1)[:n]
+	copy(b[len(b)-len(tail):], tail)
+	return b
+}
+
 // NewSink returns a fresh sink of the kind the program asks for.
 func (p *Program) NewSink() io.Writer {
+	if p.ViaCreate {
+		return newFileSink()
+	}
 	if p.Seekable {
 		return &MemSeekable{}
 	}
@@ -672,6 +754,7 @@ type Opts struct {
 	ForbidHeaders       bool   // C20: no line-initial "N G obj" inside strings and stream data
 	SmallObjects        bool   // keep object trees small
 	MaxDelta            uint32 // if > 0: largest distance of an explicit object number (each skipped number costs a 20-byte xref line)
+	NoFileSink          bool   // never write through pdf.Create to a named file
 	NoBadPuts           bool   // do not generate "putbad" actions (Puts the Writer has to refuse)
 	AllowBulk           bool   // allow "bulk" actions (hundreds to thousands of small objects)
 	IgnoreSparseFinding bool   // do not cut sparse numbering down for xref-stream files (checks which never use the library's Reader)
@@ -769,6 +852,28 @@ func Body(maxLen int, rowLen int) *rapid.Generator[[]byte] {
 
 var titles = []string{"", "Title", "Grüße aus Köln", "price 5 €", "日本語のタイトル", "a(b)c\\d", "line\nbreak", "þÿ looks like a BOM", "😀 astral"}
 
+// metaTitles are the titles used inside XMP packets: XML 1.0 cannot hold the
+// C0 control characters which init adds to titles.
+var metaTitles = append([]string{}, titles[1:]...)
+
+func init() {
+	// every code point below U+0100, sixteen to a title (text strings choose
+	// between PDFDocEncoding and Unicode forms by what the encoding can hold,
+	// and 42 of these slots hold another character in PDFDocEncoding), plus
+	// the characters PDFDocEncoding keeps in the slots 0x18-0x1F and 0x80-0x9E
+	for base := 0; base < 0x100; base += 16 {
+		rr := []rune{'T'}
+		for i := 0; i < 16; i++ {
+			if r := rune(base + i); r != 0 {
+				rr = append(rr, r)
+			}
+		}
+		titles = append(titles, string(rr))
+	}
+	titles = append(titles, "Total:\u00a0100\u00a0EUR", "\u02d8\u02c7\u02c6\u02d9\u02dd\u02db\u02da\u02dc",
+		"\u2022\u2020\u2021\u2026\u2014\u2013\u0192\u2044\u2039\u203a\u2212\u2030\u201e\u201c\u201d\u2018\u2019\u201a\u2122\ufb01\ufb02\u0141\u0152\u0160\u0178\u017d\u0131\u0142\u0153\u0161\u017e\u20ac")
+}
+
 // Gen draws a program.
 func Gen(o Opts) *rapid.Generator[Program] {
 	if o.MaxActions == 0 {
@@ -783,6 +888,9 @@ func Gen(o Opts) *rapid.Generator[Program] {
 		v := Versions[p.Version]
 		p.HumanReadable = rapid.Bool().Draw(t, "human")
 		p.Seekable = rapid.Bool().Draw(t, "seekable")
+		if p.Seekable && !o.NoFileSink && rapid.IntRange(0, 11).Draw(t, "viacreate") == 0 {
+			p.ViaCreate = true
+		}
 		if !o.NoEncryption && v >= pdf.V1_1 {
 			switch rapid.IntRange(0, 5).Draw(t, "enc") {
 			case 0, 1, 2:
@@ -827,7 +935,7 @@ func Gen(o Opts) *rapid.Generator[Program] {
 			p.CatVersion = 1 + rapid.IntRange(0, 8).Draw(t, "catversionvalue")
 		}
 		if v >= pdf.V1_4 && rapid.IntRange(0, 3).Draw(t, "meta") == 0 {
-			p.MetaTitle = rapid.SampledFrom(titles[1:]).Draw(t, "metatitle")
+			p.MetaTitle = rapid.SampledFrom(metaTitles).Draw(t, "metatitle")
 			if !p.Encrypted() || v >= pdf.V1_6 {
 				p.MetaPlain = rapid.Bool().Draw(t, "metaplain")
 			}
@@ -917,6 +1025,9 @@ func Gen(o Opts) *rapid.Generator[Program] {
 			if !o.NoBadPuts && !inStream && rapid.IntRange(0, 24).Draw(t, "bad") == 0 {
 				a.Op = "putbad"
 				a.Src = rapid.SampledFrom([]int{0, 0, 1, 2, 5}).Draw(t, "badsrc") // 0: object number 0
+				if !o.NoCompressed && rapid.IntRange(0, 3).Draw(t, "badcompressed") == 0 {
+					a.Src = -rapid.IntRange(1, 4).Draw(t, "badabove") // WriteCompressed, generation > 0
+				}
 				a.Gen = rapid.SampledFrom([]uint16{0, 0, 3, 65535}).Draw(t, "badgen")
 				ob := drawObj("obj")
 				a.Obj = &ob
@@ -1051,6 +1162,9 @@ func scrubHeaderBytes(b []byte) []byte {
 // Classes returns class labels describing the program (for the evidence).
 func (p *Program) Classes(r *Result) []string {
 	cls := []string{"v" + Versions[p.Version].String(), "cipher:" + p.Cipher()}
+	if p.ViaCreate {
+		cls = append(cls, "sink:named-file-via-Create")
+	}
 	if p.Seekable {
 		cls = append(cls, "sink:seekable")
 	} else {
